@@ -190,12 +190,12 @@ Proof.
   rewrite (peval_horner AZ_ring) in E by (destruct zs; [congruence|discriminate]). now injection E.
 Qed.
 
-Lemma nconv_of_pmul (zs ws : list Z) : zs <> [] -> ws <> [] ->
-  Forall (fun c => c < 2 ^ 53) (pmul (A := AZ) (map Z.abs zs) (map Z.abs ws)) ->
-  forall k, (k < length zs + length ws - 1)%nat -> nconv (ZA := AZ) Z.abs zs ws k < 2 ^ 53.
+Lemma nconv_of_pmul (zs ws : list Z) :
+  Forall (fun c => c < 2 ^ 53) (pmul (A := AZ) (map Z.abs zs) (map Z.abs ws)) -> conv_fits (ZA := AZ) Z.abs zs ws.
 Proof.
-  intros Nz Nw H k Hk. destruct zs as [|a0 zs']; [congruence|]. destruct ws as [|b0 ws']; [congruence|].
+  intros H Nz Nw k Hk. destruct zs as [|a0 zs']; [now elim Nz|]. destruct ws as [|b0 ws']; [now elim Nw|].
   cbn [map] in H. unfold pmul in H. rewrite <- !(map_cons Z.abs), !map_length in H.
+  change (@length (T AZ)) with (@length Z) in *.
   exact (Forall_map_seq _ _ _ _ H k ltac:(lia)).
 Qed.
 
@@ -226,14 +226,7 @@ Qed.
 
 Lemma pmul_exact_float_lemma : Forall (fun c => c < 2 ^ 53) (pmul (A := AZ) (map Z.abs zs) (map Z.abs ws)) ->
   Forall2 Exact (pmul (A := AF) p q) (pmul (A := AZ) zs ws).
-Proof.
-  intros Hb. destruct zs as [|a0 zs'] eqn:Ez.
-  - inversion Hp; subst. constructor.
-  - destruct ws as [|b0 ws'] eqn:Ew.
-    + inversion Hq; subst. destruct p; constructor.
-    + rewrite <- Ez, <- Ew in *. apply (gen_pmul _ _ _ EL_strong p q zs ws Hp Hq).
-      apply nconv_of_pmul; subst; auto; discriminate.
-Qed.
+Proof. intros Hb. apply (gen_pmul _ _ _ EL_strong p q zs ws Hp Hq). now apply nconv_of_pmul. Qed.
 
 Lemma pderiv_exact_float_lemma dz : pderiv (A := AZ) zs = Ok dz -> Forall fitsZ dz ->
   exists d, pderiv (A := AF) p = Ok d /\ Forall2 Exact d dz.
@@ -251,3 +244,203 @@ Proof.
 Qed.
 
 End Ops.
+
+(* ---------------------------------------------------------------- item 2: Horner evaluation and the laws *)
+(* sum_i |a_i| |x|^i < 2^53 *)
+Definition eval_fits (zs : list Z) (xz : Z) : Prop := horner (A := AZ) (map Z.abs zs) (Z.abs xz) < 2 ^ 53.
+Definition pmul_fits (zs ws : list Z) : Prop :=
+  Forall (fun c => c < 2 ^ 53) (pmul (A := AZ) (map Z.abs zs) (map Z.abs ws)).
+
+Lemma F2_Exact_W l zs : Forall2 Exact l zs -> Forall2 ExactW l zs.
+Proof. apply F2_impl. now intros x a [H _]. Qed.
+
+Lemma F2_nonempty {X Y} (Rr : X -> Y -> Prop) l m : Forall2 Rr l m -> l <> [] -> m <> [].
+Proof. intros H Nl ->. inversion H; subst. congruence. Qed.
+
+Lemma peval_exact_float_lemma (p : list PrimFloat.float) (zs : list Z) x xz :
+  Forall2 ExactW p zs -> ExactW x xz -> p <> [] -> eval_fits zs xz ->
+  exists r, peval (A := AF) p x = Ok r /\ ExactW r (horner (A := AZ) zs xz) /\
+            Z.abs (horner (A := AZ) zs xz) <= horner (A := AZ) (map Z.abs zs) (Z.abs xz) /\
+            (Forall2 Exact p zs -> Exact r (horner (A := AZ) zs xz)).
+Proof.
+  intros Hp Hx Np Hb. pose proof (F2_nonempty _ _ _ Hp Np) as Nz.
+  unfold eval_fits in Hb. rewrite <- (habs_horner zs xz Nz) in *.
+  destruct (gen_peval _ _ _ EL_weak p zs x xz Hp Hx Np Hb) as (r & rz & Er & Ez & Rr & Nr).
+  rewrite (peval_horner AZ_ring zs xz Nz) in Ez. injection Ez as <-.
+  exists r. split; [exact Er|]. split; [exact Rr|]. split; [exact Nr|].
+  intros Hs. destruct (gen_peval _ _ _ EL_strong p zs x xz Hs Hx Np Hb) as (r' & rz' & Er' & Ez' & Rr' & _).
+  rewrite (peval_horner AZ_ring zs xz Nz) in Ez'. injection Ez' as <-. rewrite Er in Er'. injection Er' as <-. exact Rr'.
+Qed.
+
+(* eval (p + q) x = eval p x + eval q x  and  eval (p - q) x = eval p x - eval q x,  bit for bit *)
+Lemma peval_padd_exact_float_lemma (p q : list PrimFloat.float) (zs ws : list Z) x xz :
+  Forall2 Exact p zs -> Forall2 Exact q ws -> ExactW x xz -> p <> [] -> q <> [] ->
+  Forall fitsZ (padd (A := AZ) zs ws) -> eval_fits zs xz -> eval_fits ws xz -> eval_fits (padd (A := AZ) zs ws) xz ->
+  exists rp rq, peval (A := AF) p x = Ok rp /\ peval (A := AF) q x = Ok rq /\
+    peval (A := AF) (padd (A := AF) p q) x = Ok (rp + rq)%float /\
+    Exact rp (horner (A := AZ) zs xz) /\ Exact rq (horner (A := AZ) ws xz) /\
+    Exact (rp + rq)%float (horner (A := AZ) zs xz + horner (A := AZ) ws xz).
+Proof.
+  intros Hp Hq Hx Np Nq Hs Bp Bq Bs.
+  pose proof (F2_nonempty _ _ _ Hp Np) as Nz. pose proof (F2_nonempty _ _ _ Hq Nq) as Nw.
+  unfold eval_fits in *. rewrite <- habs_horner in Bp, Bq, Bs by (auto using (padd_nonempty (A := AZ))).
+  destruct (law_eval_padd _ _ _ EL_strong Exact_unique p q zs ws x xz Hp Hq Hx Np Nq Hs Bp Bq Bs)
+    as (rp & rq & rpz & rqz & Ep & Eq & Es & Rp & Rq & Rs' & Ez & Ew).
+  rewrite (peval_horner AZ_ring) in Ez, Ew by auto. injection Ez as <-. injection Ew as <-.
+  exists rp, rq. repeat split; auto; try apply Rp; try apply Rq; try apply Rs'.
+Qed.
+
+Lemma peval_psub_exact_float_lemma (p q : list PrimFloat.float) (zs ws : list Z) x xz :
+  Forall2 Exact p zs -> Forall2 Exact q ws -> ExactW x xz -> p <> [] -> q <> [] ->
+  Forall fitsZ (psub (A := AZ) zs ws) -> eval_fits zs xz -> eval_fits ws xz -> eval_fits (psub (A := AZ) zs ws) xz ->
+  exists rp rq, peval (A := AF) p x = Ok rp /\ peval (A := AF) q x = Ok rq /\
+    peval (A := AF) (psub (A := AF) p q) x = Ok (rp - rq)%float /\
+    Exact rp (horner (A := AZ) zs xz) /\ Exact rq (horner (A := AZ) ws xz) /\
+    Exact (rp - rq)%float (horner (A := AZ) zs xz - horner (A := AZ) ws xz).
+Proof.
+  intros Hp Hq Hx Np Nq Hs Bp Bq Bs.
+  pose proof (F2_nonempty _ _ _ Hp Np) as Nz. pose proof (F2_nonempty _ _ _ Hq Nq) as Nw.
+  unfold eval_fits in *. rewrite <- habs_horner in Bp, Bq, Bs by (auto using (psub_nonempty (A := AZ))).
+  destruct (law_eval_psub _ _ _ EL_strong Exact_unique p q zs ws x xz Hp Hq Hx Np Nq Hs Bp Bq Bs)
+    as (rp & rq & rpz & rqz & Ep & Eq & Es & Rp & Rq & Rs' & Ez & Ew).
+  rewrite (peval_horner AZ_ring) in Ez, Ew by auto. injection Ez as <-. injection Ew as <-.
+  exists rp, rq. repeat split; auto; try apply Rp; try apply Rq; try apply Rs'.
+Qed.
+
+(* two floats holding the same integer: equal for the code's ==, and identical unless the integer is 0 *)
+Definition same_value (r r' : PrimFloat.float) (z : Z) : Prop :=
+  ExactW r z /\ ExactW r' z /\ PrimFloat.eqb r r' = true /\ (z <> 0 -> r = r').
+Lemma same_value_intro r r' z : ExactW r z -> ExactW r' z -> same_value r r' z.
+Proof.
+  intros H H'. repeat split; try apply H; try apply H'.
+  - rewrite (ExactW_eqb r r' z z H H'). apply Z.eqb_refl.
+  - intros Hz. now apply (ExactW_unique_nz r r' z).
+Qed.
+
+Lemma R_Rs_weak : forall (x : AF) (a : AZ), ExactW x a -> ExactW x a.
+Proof. auto. Qed.
+
+(* eval (p * q) x ~ eval p x * eval q x,  eval (-p) x ~ -(eval p x),  eval (s p) x ~ (eval p x) * s *)
+Lemma peval_pmul_exact_float_lemma (p q : list PrimFloat.float) (zs ws : list Z) x xz :
+  Forall2 ExactW p zs -> Forall2 ExactW q ws -> ExactW x xz -> p <> [] -> q <> [] ->
+  pmul_fits zs ws -> eval_fits zs xz -> eval_fits ws xz -> eval_fits (pmul (A := AZ) zs ws) xz ->
+  horner (A := AZ) (map Z.abs zs) (Z.abs xz) * horner (A := AZ) (map Z.abs ws) (Z.abs xz) < 2 ^ 53 ->
+  exists rp rq r, peval (A := AF) p x = Ok rp /\ peval (A := AF) q x = Ok rq /\
+    peval (A := AF) (pmul (A := AF) p q) x = Ok r /\
+    same_value r (rp * rq)%float (horner (A := AZ) zs xz * horner (A := AZ) ws xz).
+Proof.
+  intros Hp Hq Hx Np Nq Hm Bp Bq Bm Bpq.
+  pose proof (F2_nonempty _ _ _ Hp Np) as Nz. pose proof (F2_nonempty _ _ _ Hq Nq) as Nw.
+  unfold eval_fits in *. rewrite <- habs_horner in Bp, Bq, Bm by (auto using (pmul_nonempty (A := AZ))).
+  rewrite <- (habs_horner zs xz Nz), <- (habs_horner ws xz Nw) in Bpq.
+  destruct (law_eval_pmul _ _ _ EL_weak R_Rs_weak p q zs ws x xz Hp Hq Hx Np Nq (nconv_of_pmul _ _ Hm) Bp Bq Bm Bpq)
+    as (rp & rq & r & rpz & rqz & Ep & Eq & Er & Ez & Ew & Rp & Rq & Rr & Rm).
+  rewrite (peval_horner AZ_ring) in Ez, Ew by auto. injection Ez as <-. injection Ew as <-.
+  exists rp, rq, r. split; [exact Ep|]. split; [exact Eq|]. split; [exact Er|]. now apply same_value_intro.
+Qed.
+
+Lemma peval_pneg_exact_float_lemma (p : list PrimFloat.float) (zs : list Z) x xz :
+  Forall2 ExactW p zs -> ExactW x xz -> p <> [] -> eval_fits zs xz ->
+  exists rp r, peval (A := AF) p x = Ok rp /\ peval (A := AF) (pneg (A := AF) p) x = Ok r /\
+    same_value r (- rp)%float (- horner (A := AZ) zs xz).
+Proof.
+  intros Hp Hx Np Bp. pose proof (F2_nonempty _ _ _ Hp Np) as Nz.
+  assert (Bn : eval_fits (pneg (A := AZ) zs) xz).
+  { unfold eval_fits in *. unfold pneg. rewrite map_map.
+    rewrite (map_ext (fun a => Z.abs (@neg AZ a)) Z.abs); auto. intros a; cbn. apply Z.abs_opp. }
+  assert (Nn : pneg (A := AZ) zs <> []) by (destruct zs; [congruence|discriminate]).
+  unfold eval_fits in *. rewrite <- habs_horner in Bp, Bn by auto.
+  destruct (law_eval_pneg _ _ _ EL_weak R_Rs_weak p zs x xz Hp Hx Np Bp Bn) as (rp & r & rpz & Ep & Er & Ez & Rp & Rr & Rn).
+  rewrite (peval_horner AZ_ring) in Ez by auto. injection Ez as <-.
+  exists rp, r. split; [exact Ep|]. split; [exact Er|]. now apply same_value_intro.
+Qed.
+
+Lemma peval_pscale_exact_float_lemma (p : list PrimFloat.float) (zs : list Z) x xz s sz :
+  Forall2 ExactW p zs -> ExactW x xz -> ExactW s sz -> p <> [] ->
+  Forall fitsZ (pscale (A := AZ) zs sz) -> eval_fits zs xz -> eval_fits (pscale (A := AZ) zs sz) xz ->
+  horner (A := AZ) (map Z.abs zs) (Z.abs xz) * Z.abs sz < 2 ^ 53 ->
+  exists rp r, peval (A := AF) p x = Ok rp /\ peval (A := AF) (pscale (A := AF) p s) x = Ok r /\
+    same_value r (rp * s)%float (horner (A := AZ) zs xz * sz).
+Proof.
+  intros Hp Hx Hs Np Hb Bp Bn Bs. pose proof (F2_nonempty _ _ _ Hp Np) as Nz.
+  assert (Nn : pscale (A := AZ) zs sz <> []) by (destruct zs; [congruence|discriminate]).
+  unfold eval_fits in *. rewrite <- habs_horner in Bp, Bn, Bs by auto.
+  assert (Hb' : Forall (fun a : AZ => Z.abs a * Z.abs sz < 2 ^ 53) zs).
+  { unfold pscale in Hb. rewrite Forall_map in Hb. eapply Forall_impl; [|exact Hb].
+    intros a Ha. cbv beta in Ha. cbn in Ha. rewrite Z.abs_mul in Ha. exact Ha. }
+  destruct (law_eval_pscale _ _ _ EL_weak R_Rs_weak p zs x xz s sz Hp Hx Hs Np Hb' Bp Bn Bs)
+    as (rp & r & rpz & Ep & Er & Ez & Rp & Rr & Rn).
+  rewrite (peval_horner AZ_ring) in Ez by auto. injection Ez as <-.
+  exists rp, r. split; [exact Ep|]. split; [exact Er|]. now apply same_value_intro.
+Qed.
+
+(* (p + q)' = p' + q'  and  (p q)' = p' q + p q',  bit for bit, for ANY integer-valued operands (negative zeros
+   included: every coefficient of a derivative, a sum of two non-empty operands or a product is accumulated from +0) *)
+Lemma pderiv_padd_exact_float_lemma (p q : list PrimFloat.float) (zs ws dzs dws : list Z) :
+  Forall2 ExactW p zs -> Forall2 ExactW q ws ->
+  pderiv (A := AZ) zs = Ok dzs -> pderiv (A := AZ) ws = Ok dws ->
+  Forall fitsZ (padd (A := AZ) zs ws) -> Forall fitsZ dzs -> Forall fitsZ dws -> Forall fitsZ (padd (A := AZ) dzs dws) ->
+  exists dp dq, pderiv (A := AF) p = Ok dp /\ pderiv (A := AF) q = Ok dq /\
+    pderiv (A := AF) (padd (A := AF) p q) = Ok (padd (A := AF) dp dq) /\ Forall2 Exact (padd (A := AF) dp dq) (padd (A := AZ) dzs dws).
+Proof.
+  intros Hp Hq Ez Ew Hs Fz Fw Fs.
+  assert (Np : p <> []) by (intros ->; inversion Hp; subst; discriminate).
+  assert (Nq : q <> []) by (intros ->; inversion Hq; subst; discriminate).
+  pose proof (pderiv_padd AZ_ring zs ws dzs dws Ez Ew) as Es.
+  destruct (law_pderiv_padd _ _ _ EL_strong Exact_unique p q zs ws Hp Hq Np Nq Hs
+              (deriv_fits_of_result _ _ Ez Fz) (deriv_fits_of_result _ _ Ew Fw) (deriv_fits_of_result _ _ Es Fs))
+    as (dp & dq & Ep & Eq & Ed).
+  { intros a b Ea Eb. rewrite Ez in Ea. rewrite Ew in Eb. injection Ea as <-. injection Eb as <-. exact Fs. }
+  exists dp, dq. repeat split; auto.
+  destruct (pderiv_exact_float_lemma p zs Hp dzs Ez Fz) as (dp' & Ep' & Rp).
+  destruct (pderiv_exact_float_lemma q ws Hq dws Ew Fw) as (dq' & Eq' & Rq).
+  rewrite Ep in Ep'. rewrite Eq in Eq'. injection Ep' as <-. injection Eq' as <-.
+  apply (gen_padd_s _ _ _ EL_strong); auto.
+Qed.
+
+Lemma pderiv_pmul_exact_float_lemma (p q : list PrimFloat.float) (zs ws dzs dws : list Z) :
+  Forall2 ExactW p zs -> Forall2 ExactW q ws ->
+  pderiv (A := AZ) zs = Ok dzs -> pderiv (A := AZ) ws = Ok dws ->
+  pmul_fits zs ws -> Forall fitsZ dzs -> Forall fitsZ dws -> pmul_fits dzs ws -> pmul_fits zs dws ->
+  Forall fitsZ (padd (A := AZ) (pmul (A := AZ) dzs ws) (pmul (A := AZ) zs dws)) ->
+  exists dp dq, pderiv (A := AF) p = Ok dp /\ pderiv (A := AF) q = Ok dq /\
+    pderiv (A := AF) (pmul (A := AF) p q) = Ok (padd (A := AF) (pmul (A := AF) dp q) (pmul (A := AF) p dq)) /\
+    Forall2 Exact (padd (A := AF) (pmul (A := AF) dp q) (pmul (A := AF) p dq)) (padd (A := AZ) (pmul (A := AZ) dzs ws) (pmul (A := AZ) zs dws)).
+Proof.
+  intros Hp Hq Ez Ew Hm Fz Fw M1 M2 Fs.
+  assert (Np : p <> []) by (intros ->; inversion Hp; subst; discriminate).
+  assert (Nq : q <> []) by (intros ->; inversion Hq; subst; discriminate).
+  pose proof (pderiv_pmul AZ_ring zs ws dzs dws Ez Ew) as Es.
+  destruct (law_pderiv_pmul _ _ _ EL_strong Exact_unique p q zs ws Hp Hq Np Nq (nconv_of_pmul _ _ Hm)
+              (deriv_fits_of_result _ _ Ez Fz) (deriv_fits_of_result _ _ Ew Fw) (deriv_fits_of_result _ _ Es Fs))
+    as (dp & dq & Ep & Eq & Ed).
+  { intros a b Ea Eb. rewrite Ez in Ea. rewrite Ew in Eb. injection Ea as <-. injection Eb as <-.
+    repeat split; auto using nconv_of_pmul. }
+  exists dp, dq. repeat split; auto.
+  destruct (pderiv_exact_float_lemma p zs Hp dzs Ez Fz) as (dp' & Ep' & Rp).
+  destruct (pderiv_exact_float_lemma q ws Hq dws Ew Fw) as (dq' & Eq' & Rq).
+  rewrite Ep in Ep'. rewrite Eq in Eq'. injection Ep' as <-. injection Eq' as <-.
+  apply (gen_padd_s _ _ _ EL_strong); auto.
+  - apply (gen_pmul _ _ _ EL_strong); auto using nconv_of_pmul, F2_Exact_W.
+  - apply (gen_pmul _ _ _ EL_strong); auto using nconv_of_pmul, F2_Exact_W.
+Qed.
+
+(* (s p)' ~ s p' : the same integers on both sides (a zero coefficient may differ in sign) *)
+Lemma pderiv_pscale_exact_float_lemma (p : list PrimFloat.float) (zs dzs : list Z) s sz :
+  Forall2 ExactW p zs -> ExactW s sz -> pderiv (A := AZ) zs = Ok dzs ->
+  Forall fitsZ (pscale (A := AZ) zs sz) -> Forall fitsZ dzs -> Forall fitsZ (pscale (A := AZ) dzs sz) ->
+  exists dp d, pderiv (A := AF) p = Ok dp /\ pderiv (A := AF) (pscale (A := AF) p s) = Ok d /\
+    Forall2 ExactW d (pscale (A := AZ) dzs sz) /\ Forall2 ExactW (pscale (A := AF) dp s) (pscale (A := AZ) dzs sz).
+Proof.
+  intros Hp Hs Ez Hb Fz Fs.
+  assert (Np : p <> []) by (intros ->; inversion Hp; subst; discriminate).
+  assert (conv : forall l, Forall fitsZ (pscale (A := AZ) l sz) -> Forall (fun a : AZ => Z.abs a * Z.abs sz < 2 ^ 53) l).
+  { intros l H. unfold pscale in H. rewrite Forall_map in H. eapply Forall_impl; [|exact H].
+    intros a Ha. cbv beta in Ha. cbn in Ha. rewrite Z.abs_mul in Ha. exact Ha. }
+  pose proof (pderiv_pscale AZ_ring zs dzs sz Ez) as Es.
+  destruct (law_pderiv_pscale _ _ _ EL_weak p zs s sz Hp Hs Np (conv _ Hb)
+              (deriv_fits_of_result _ _ Ez Fz) (deriv_fits_of_result _ _ Es Fs))
+    as (dp & d & dz' & Ep & Ed & Ez' & R1 & R2).
+  { intros a Ea. rewrite Ez in Ea. injection Ea as <-. now apply conv. }
+  rewrite Ez in Ez'. injection Ez' as <-. exists dp, d. repeat split; auto.
+Qed.
